@@ -81,6 +81,15 @@ Write(v) ==
 \* bytes really written (the payload is written verbatim whatever the len field says)
 WrittenBytes(v) == StorageHdr + WLen(v)
 
+(* DltStandardHeader::to_write called directly (public; DltMessage::to_write always passes None for both): the caller may ask
+   for the ECU id and / or a session id IN the standard header.  Same message otherwise; behind a storage header that
+   carries the message's ECU as well.  Only defined while the longer header still fits the 16 bit len field.        *)
+WXLen(v, we, ws) == HdrLen(we, ws, v.wtms, v.hasExt) + v.payLen
+FitsX(v, we, ws) == WXLen(v, we, ws) < U16
+WriteX(v, we, ws, sid) ==
+  [ Write(v) EXCEPT !.weid = we, !.wsid = ws, !.ecuStd = IF we THEN v.ecu ELSE NoId, !.sid = IF ws THEN sid ELSE NoId,
+                    !.len = WXLen(v, we, ws) ]
+
 -----------------------------------------------------------------------------
 \* the theorems (C02), as predicates over one well-formed stored message m
 RoundTrip(m) == LET v == ParseView(m) w == Write(v) v2 == ParseView(w) IN
@@ -96,5 +105,14 @@ NoWrap(m)     == LET v == ParseView(m) IN
                   /\ WLen(v) < U16
                   /\ WrittenBytes(v) <= Size(m)
                   /\ WrittenBytes(v) <= StorageHdr + (U16 - 1)
-Theorems(m) == RoundTrip(m) /\ NormalForm(m) /\ Idempotent(m) /\ NoWrap(m)
+\* the ECU / session id variants round-trip as well (whenever they fit); a re-read variant is rewritten in normal form
+RoundTripX(m) == LET v == ParseView(m) IN
+                 \A we \in BOOLEAN, ws \in BOOLEAN :
+                    FitsX(v, we, ws) =>
+                       LET w == WriteX(v, we, ws, NoId)  v2 == ParseView(w) IN
+                       /\ WellFormed(w)
+                       /\ Listed(v2) = Listed(v)
+                       /\ v2.consumed = StorageHdr + WXLen(v, we, ws)
+                       /\ Write(v2) = Write(v)
+Theorems(m) == RoundTrip(m) /\ NormalForm(m) /\ Idempotent(m) /\ NoWrap(m) /\ RoundTripX(m)
 =============================================================================
